@@ -101,6 +101,109 @@ fn note_rw_vmas() {
     MAX_RW_VMAS.fetch_max(count, core::sync::atomic::Ordering::Relaxed);
 }
 
+/// C03 fork oracle on the global allocator: `alloc_probe forkcheck <seed> <blocks> <rounds>`
+/// Blocks with a pattern; fork; the child scribbles over all of them, frees / allocates / reallocs through the global
+/// allocator and exits; the parent waits and re-reads every block.  Output: `F <round> <blocks> <first changed block or -1> <offset>`
+fn forkcheck_main(args: &mut dyn Iterator<Item = &'static str>) -> i32 {
+    let seed = parse(args.next());
+    let n = parse(args.next()).clamp(8, 4096) as usize;
+    let rounds = parse(args.next()).clamp(1, 64);
+    let mut r = Prng::new(seed);
+    let mut g = Global;
+    let pat = |tag: u64, i: usize, j: usize| (tag.wrapping_mul(31).wrapping_add((i * 131 + j * 7) as u64) >> 3) as u8;
+    let mut blocks: Vec<Slot> = Vec::with_capacity(n);
+    for i in 0..n {
+        let size = match r.below(6) {
+            0 => 1 + r.below(64) as usize,
+            1 => 200 + r.below(400) as usize,
+            2 => 4096 + r.below(8192) as usize,
+            3 => (64 << 10) + r.below(64 << 10) as usize,
+            4 => (1 << 20) + r.below(1 << 20) as usize,
+            _ => 1 + r.below(2048) as usize,
+        };
+        let align = if i % 5 == 4 { 64 } else { 8 };
+        let p = unsafe { g.alloc(size, align) };
+        if p.is_null() {
+            continue;
+        }
+        for j in 0..size {
+            unsafe { p.add(j).write(pat(seed, i, j)) };
+        }
+        blocks.push(Slot { p, size, align });
+    }
+    for round in 0..rounds {
+        let pid = unsafe { rusl::process::fork() };
+        match pid {
+            Ok(0) => {
+                // child: its own heap now
+                for (i, b) in blocks.iter().enumerate() {
+                    for j in 0..b.size {
+                        unsafe { b.p.add(j).write(!pat(seed, i, j)) };
+                    }
+                }
+                for (i, b) in blocks.iter().enumerate() {
+                    unsafe {
+                        match i % 3 {
+                            0 => g.free(b.p, b.size, b.align),
+                            1 => {
+                                let q = g.realloc(b.p, b.size, b.align, b.size * 2 + 1);
+                                if !q.is_null() {
+                                    q.write_bytes(0xEE, b.size * 2 + 1);
+                                }
+                            }
+                            _ => {}
+                        }
+                    }
+                }
+                let mut v: Vec<Vec<u8>> = Vec::new();
+                for k in 0..64usize {
+                    v.push(alloc::vec![0xEEu8; 1 + (k * 997) % 70_000]);
+                }
+                core::hint::black_box(&v);
+                rusl::process::exit(0);
+            }
+            Ok(child) => {
+                let _ = rusl::process::wait_pid(child, rusl::platform::WaitPidFlags::empty());
+            }
+            Err(_) => {
+                tiny_std::println!("E fork failed");
+                return 2;
+            }
+        }
+        let mut bad: i64 = -1;
+        let mut off = 0usize;
+        'scan: for (i, b) in blocks.iter().enumerate() {
+            for j in 0..b.size {
+                if unsafe { b.p.add(j).read() } != pat(seed, i, j) {
+                    bad = i as i64;
+                    off = j;
+                    break 'scan;
+                }
+            }
+        }
+        tiny_std::println!("F {} {} {} {}", round, blocks.len(), bad, off);
+        if bad >= 0 {
+            return 0;
+        }
+        // the parent goes on using its heap between forks
+        for (i, b) in blocks.iter_mut().enumerate().filter(|(i, _)| i % 7 == round as usize % 7) {
+            let new = b.size + 17;
+            let q = unsafe { g.realloc(b.p, b.size, b.align, new) };
+            if !q.is_null() {
+                b.p = q;
+                b.size = new;
+                for j in 0..new {
+                    unsafe { q.add(j).write(pat(seed, i, j)) };
+                }
+            }
+        }
+    }
+    for b in blocks.drain(..) {
+        unsafe { g.free(b.p, b.size, b.align) };
+    }
+    0
+}
+
 fn steady_main(baseline: u64, args: &mut dyn Iterator<Item = &'static str>) -> i32 {
     let chunk = parse(args.next()) as usize;
     let mix = parse(args.next()) as u8;
@@ -338,6 +441,9 @@ pub fn main() -> i32 {
     let shape_s = args.next().unwrap_or("small");
     if shape_s == "steady" {
         return steady_main(baseline, &mut args);
+    }
+    if shape_s == "forkcheck" {
+        return forkcheck_main(&mut args);
     }
     let order_s = args.next().unwrap_or("lifo");
     let threads = parse(args.next()).max(1) as usize;
